@@ -146,6 +146,42 @@ func corpus(tier string) ([]History, []string) {
 		Op{K: "cleanup"},
 		Op{K: "control", E: 0, Ev: 3},
 		Op{K: "destroy", E: 0})
+	// seeded change C04-6: hosts that joined the inventory after the core started (cache proxy miss): the first
+	// environment on such a host holds the host's detector, a second one on that detector is refused
+	hs = append(hs, History{Late: []int{1}, Ops: []Op{
+		cr(0, []int{1}, plain(1, true)),
+		cr(1, []int{0}, plain(0, true)),
+		cr(2, []int{2}, plain(2, true)),
+		Op{K: "destroy", E: 0},
+		cr(3, []int{0, 1}, plain(0, true), plain(1, false)),
+		Op{K: "destroy", E: 3}, Op{K: "destroy", E: 2}}})
+	ks = append(ks, "corpus:late-host-first-use")
+	hs = append(hs, History{Late: []int{3, 2}, Ops: []Op{
+		cr(0, []int{0, 3}, plain(0, true), plain(3, true)),
+		cr(1, []int{4}, plain(4, true)),
+		cr(2, []int{2}, plain(2, true)),
+		cr(3, []int{2, 4}, plain(4, true)),
+		Op{K: "destroy", E: 0}, Op{K: "destroy", E: 2},
+		cr(4, []int{3}, plain(3, true)),
+		Op{K: "destroy", E: 4}}})
+	ks = append(ks, "corpus:late-hosts-mixed-with-cached")
+	// seeded change C06-6: several calls pending for one await trigger - other weights, the same weight, another
+	// trigger - started at different moments; every one of them has to be cancelled by the teardown
+	pendAt := func(tw, an, aw int) Role { return Role{Kind: KPend, TW: tw, AN: an, AW: aw} }
+	leaveAt := func(st, an, aw int) Role { return Role{Kind: KLeave, St: st, AN: an, AW: aw} }
+	add("pending-two-await-weights",
+		cr(0, []int{0}, plain(0, true), pendAt(-4, 0, 0), pendAt(0, 0, 10)),
+		Op{K: "destroy", E: 0})
+	add("pending-leave-other-weight",
+		cr(0, []int{1}, plain(1, true), pendAt(0, 0, 0), pendAt(3, 0, 0), leaveAt(2, 0, 5), pendAt(0, 1, 0)),
+		Op{K: "destroy", E: 0, Force: true})
+	add("pending-many-failed-creation",
+		Op{K: "create", E: 0, Spec: &Spec{Hosts: []int{3}, Roles: []Role{plain(3, true), {Kind: KPlain, Host: 3, Crit: true, Cfg: true},
+			pendAt(-4, 0, 0), pendAt(0, 0, -2), pendAt(6, 1, 0), pendAt(6, 0, 0), leaveAt(4, 0, 7)}}},
+		cr(1, []int{0}, plain(0, true), pendAt(0, 1, 3), pendAt(0, 1, 0), leaveAt(2, 1, 9), leaveAt(3, 0, 0)),
+		Op{K: "control", E: 1, Ev: 2},
+		Op{K: "control", E: 1, Ev: 3},
+		Op{K: "destroy", E: 1})
 	// seeded change C06-2: calls started by the leave_<state> hooks the teardown itself runs
 	add("leave-call-forced-configured",
 		cr(0, []int{0}, plain(0, true), leaveCall(2), Role{Kind: KPend}),
@@ -334,12 +370,19 @@ func genSpec(r *gen.Rand, envs []*genEnv, allowSlow bool) *Spec {
 			s.Roles = append(s.Roles, hookCall(after, w))
 		}
 	}
-	if r.Chance(1, 4) {
-		s.Roles = append(s.Roles, Role{Kind: KPend})
+	// pending calls: often several per await trigger (other weights, the same weight, another trigger), started
+	// at different moments (weights of before_CONFIGURE, the leave_<state> hooks)
+	tws, aws := []int{0, 0, -4, 6}, []int{0, 0, 10, -2, 5}
+	if r.Chance(1, 3) {
+		for i, n := 0, []int{1, 1, 2, 3}[r.Intn(4)]; i < n; i++ {
+			s.Roles = append(s.Roles, Role{Kind: KPend, TW: tws[r.Intn(len(tws))], AN: r.Intn(2), AW: aws[r.Intn(len(aws))]})
+		}
 	}
 	if r.Chance(1, 4) {
 		for i, n := 0, r.Range(1, 2); i < n; i++ {
-			s.Roles = append(s.Roles, leaveCall([]int{2, 3, 4, 2, 3}[r.Intn(5)]))
+			l := leaveCall([]int{2, 3, 4, 2, 3}[r.Intn(5)])
+			l.AN, l.AW = r.Intn(2), aws[r.Intn(len(aws))]
+			s.Roles = append(s.Roles, l)
 		}
 	}
 	// shuffle everything but keep a critical plain role somewhere
@@ -564,7 +607,15 @@ func randomHistory(r *gen.Rand, allowSlow bool) (History, string) {
 		case x < 96:
 			// status updates from the master for every running task (1/4 after a dropped connection)
 			if len(al) > 0 {
-				h.Ops = append(h.Ops, Op{K: "recon", Reconn: r.Chance(1, 4)})
+				// no re-subscription after an executor failure: the simulated master still runs those tasks
+				// and would report them as running again (a state the model of the roster does not have)
+				reconn := r.Chance(1, 4)
+				for _, p := range h.Ops {
+					if p.K == "xfail" {
+						reconn = false
+					}
+				}
+				h.Ops = append(h.Ops, Op{K: "recon", Reconn: reconn})
 				if r.Chance(1, 2) {
 					h.Ops = append(h.Ops, Op{K: "cleanup"})
 				}
@@ -651,6 +702,14 @@ func generate(o gen.Opts, prop string) ([]History, []string) {
 	}
 	for len(hs) < o.N {
 		h, k := randomHistory(r.Fork(), slowBudget > 0)
+		// half of the histories: one or two hosts are not in the inventory when the core starts
+		lr := r.Fork()
+		if lr.Chance(1, 2) {
+			h.Late = []int{lr.Intn(5)}
+			if lr.Chance(1, 3) {
+				h.Late = append(h.Late, lr.Intn(5))
+			}
+		}
 		for _, op := range h.Ops {
 			if op.Spec != nil && (op.Spec.Fail == 4 || op.Spec.Fail == 6) {
 				slowBudget--
